@@ -2,6 +2,7 @@ SPECIFICATION Spec
 CONSTANTS
   NCallers = 3
   RecyclesWrappers = FALSE
+  SharedDefaults = FALSE
   OnceIsNilCheck = FALSE
   Ns = {2, 3}
 CHECK_DEADLOCK FALSE
